@@ -7,6 +7,7 @@ package ledger
 
 import (
 	"encoding/json"
+	"errors"
 	"fmt"
 	"github.com/nspcc-dev/neo-go/pkg/crypto/keys"
 	"os"
@@ -15,6 +16,7 @@ import (
 	"testing"
 	"time"
 
+	"github.com/nspcc-dev/neo-go/pkg/core"
 	"github.com/nspcc-dev/neo-go/pkg/core/block"
 	"github.com/nspcc-dev/neo-go/pkg/core/native/nativehashes"
 	"github.com/nspcc-dev/neo-go/pkg/core/native/noderoles"
@@ -759,6 +761,19 @@ func (r *run) feed(n *Node, b *block.Block) {
 			return
 		}
 		r.log.Addf("%s block %d with a concurrent flush", n.Name, b.Index)
+	} else if r.tape.Chance(1, 10) {
+		// the same block from two sources at once
+		var err2 error
+		err, err2 = r.addBlockFromTwoSources(n, r.raw[b.Index])
+		if r.fail != nil {
+			return
+		}
+		r.log.Addf("%s block %d from two sources: %v / %v", n.Name, b.Index, err, err2)
+		if !(err == nil && errors.Is(err2, core.ErrAlreadyExists)) && !(err2 == nil && errors.Is(err, core.ErrAlreadyExists)) {
+			r.violate(sim.Violatef("duplicate-block-not-refused", "", "%s was given valid block %d by two callers at once; they were answered %v and %v (expected: one applies it, the other is told it exists already)", n.Name, b.Index, err, err2))
+			return
+		}
+		err = nil
 	} else if v := sim.Recover(func() { err = n.AddBlockBytes(r.raw[b.Index]) }); v != nil {
 		v.Msg = fmt.Sprintf("%s AddBlock(%d) panicked: %s", n.Name, b.Index, v.Msg)
 		r.violate(v)
